@@ -1,6 +1,6 @@
 """Per-property configuration of ./check."""
 
-HOOK_COMMITS = ["93c5b5f", "7b65bb1", "563f8ff", "154b503"]
+HOOK_COMMITS = ["93c5b5f", "7b65bb1", "563f8ff", "154b503", "b4271c3"]
 
 COMMON_ASSUME = [
     "the hand-written Lean model is faithful to /repo only as far as this run's correspondence sampled it",
@@ -28,7 +28,44 @@ def _render_nontrivial(case, impl):
         return len(it) == 2 and it[1] != t[1]
     return t[0] == "bar" and any(x != "0" for x in t[1:7])
 
+def _sched_nontrivial(case, impl):
+    # non-trivial: at least two commands started
+    return impl.count(" B ") >= 2
+
+SCHED_RULE = ("random projects (2-11 build statements, 1-2 outputs each, explicit/implicit/order-only/validation "
+              "inputs, phony steps, 0-3 declared pools with depth 0-3, console, undeclared pool names, ordering cycles "
+              "in 1/6 of the projects, validation edges to later steps), 1-3 invocations per project with touched "
+              "sources / deleted outputs in between, -j 1-4, -k none/1-3, targets by various spellings / unknown names / "
+              "defaults / all, random completion order with 0/15/40% failures and 0/4% interrupts; every invocation runs "
+              "the REAL run::build/Work/Runner with only process spawning scripted; observation = every state "
+              "transition with counts and pending, every Progress callback, the result. Non-trivial = at least 2 "
+              "commands started; distinct by case text")
+SCHED_ASSUME = COMMON_ASSUME + [
+    "releasing one blocked command at a time is a faithful stand-in for real completion timing (Runner::wait takes one message at a time)",
+    "the HashSet iteration order in ready_dependents and the dirty/clean answers are taken from the observed trace (they are environment choices of the model); theorems quantify over all of them",
+    "theorems so far: invariant preservation per state transition (`set`), the initial state, the gate, the want phase (joint induction), run-loop success; the lift to every reachable state of the run loop is in progress (DESIGN.md §7)",
+]
+SCHED_TB = ["work.rs modelled: BuildStates (set, want_build/want_file with re-entrancy, enqueue, pop_queued, pop_ready), Work::run, recheck_ready, ready_dependents; task.rs Runner counters; run.rs build (phases, target resolution)",
+            "not modelled: threads/channel of Runner, process spawning (scripted), check_build_dirty (observed; see C02/C03)"]
+
+def _sched(claim, props, monitors):
+    return {"claim": claim, "props": props, "modes": ["sched"], "level": "proof",
+            "nontrivial": {"sched": _sched_nontrivial}, "rule": SCHED_RULE, "assumptions": SCHED_ASSUME,
+            "trusted_base": SCHED_TB, "monitors": monitors + ["traceConsistent"]}
+
 PROPS = {
+    "C01": _sched("Lean 4 theorems about the scheduler model: the readiness gate admits a build only when every producer of an ordering input is Done; everything ready_dependents promotes passed it; the gating invariant is preserved by every state transition; validation edges do not enter readiness; the want phase never resets a queued/running/finished build (joint induction over the mutually recursive want functions, covering re-entrancy). The model is tied to the real Work/Runner by exact equality of full transition traces on random graphs x schedules, and the monitors startsAfterDeps (all transitive ordering producers Done before a start) and startsOnce are evaluated in Lean on the implementation's trace.",
+                  ["C01"], ["startsAfterDeps", "startsOnce"]),
+    "C04": _sched("Lean 4 theorems: pop_queued only hands out builds from a pool with room; the start loop never exceeds -j; per-pool running counters equal the number of Running builds of that pool across every transition; pool names are distinct with declared pools overriding built-ins; an undeclared pool is an error at enqueue time. Tied to the real scheduler by trace equality; monitor withinLimits (running set <= -j and <= depth per pool at every start) evaluated on the implementation's trace.",
+                  ["C04"], ["withinLimits"]),
+    "C05": _sched("Lean 4 theorems: Work::run reports success only with no failed task and nothing pending; with the invariant, nothing pending means every build is Unknown, Done or Failed; a Failed producer blocks the readiness gate of its dependents; the want phase cannot revive a Failed build. Tied to the real scheduler by trace equality; monitors failuresContained, budgetRespected, exitOk, stopsOnInterrupt evaluated on the implementation's trace.",
+                  ["C05"], ["failuresContained", "budgetRespected", "exitOk", "stopsOnInterrupt"]),
+    "C06": _sched("Lean 4 theorems: an error while collecting the wanted set (dependency cycle) returns before the run loop, so nothing starts; the diagnostic has the documented shape; readiness never looks at validation inputs; inherited Done states survive the second want phase; the run loops are total functions. Termination without the BUG outcome and 'all wanted Done when nothing fails' are so far checked by the monitor `decided`/`exitOk` on every implementation trace (cyclic, validation-cyclic and acyclic graphs) and by trace equality with the model; the progress-measure proof is in progress.",
+                  ["C06"], ["decided", "exitOk"]),
+    "C18": _sched("Lean 4 theorems: target lookup is invariant under spellings with equal canonical form; an unknown name is rejected (outside restat mode) before later targets are considered; the manifest named as target is skipped; wanting more targets only turns Unknown builds into Want/Ready. Tied to the real run::build by trace equality (targets / defaults / all-files choice is part of the model); monitors onlyWanted and closureComplete (the set of builds that left Unknown = closure over ordering+validation producers of the resolved targets) evaluated on the implementation's trace.",
+                  ["C18"], ["onlyWanted", "closureComplete"]),
+    "C19": _sched("Lean 4 theorems: initially and across every state transition each UI count equals the number of non-phony builds in that state and `pending` the number of Want/Ready/Queued/Running builds (so the isize/usize casts never wrap: all counts in [0, #builds]); the want phase changes no finished count nor tasks_run. Tied to the real scheduler by trace equality including the counts of every transition; monitors countsOk (per update: counts = recomputed from transitions, running = started-finished, done/failed monotone) and summaryOk (ran N = successful commands) evaluated on the implementation's trace.",
+                  ["C19"], ["countsOk", "summaryOk"]),
     "C20": {
         "claim": "Lean 4 theorems over ALL byte strings, seconds, widths and count vectors: truncate returns a boundary-aligned prefix of at most max bytes; the repaired task_message never panics, fits the width (>= 3) and is cut on a character boundary; progress_bar has exactly its nominal width. The model is tied to the real helpers (through add-only pub wrappers) on all strings up to 3/5 characters mixing 1-4 byte characters x widths x seconds, random long strings, and exhaustive small + random count vectors.",
         "props": ["C20"],
